@@ -728,6 +728,10 @@ func corpus(w *bufio.Writer) {
 	} {
 		put(trLine([]string{wgs, d, wgs}, 9.5, 47.25))
 	}
+	// a sphere spelled `+rf=0` (DeriveConstants: `Rf == 0` -> sphere, B = A; the B computed from rf = 0 just before is -Inf)
+	sph0 := "+a=6371000 +rf=0"
+	put(trLine([]string{"+proj=longlat " + sph0, "+proj=merc +lon_0=9 +x_0=0 +y_0=0 " + sph0,
+		"+proj=aea +lat_1=29.5 +lat_2=45.5 +lat_0=23 +lon_0=9 +x_0=0 +y_0=0 " + sph0, "+proj=longlat " + sph0}, 9.5, 47.25))
 	put("parse | +proj=longlat +datum=WGS84 +from_greenwich=2.5")
 }
 
